@@ -388,6 +388,7 @@ static void op_free(void) { int s = pick_live(); if (s < 0) return; op_free_slot
 
 /* ------------------------------------------------------------------ realloc family */
 static void op_realloc_ex(int op, int s /* slot or -1 for NULL input */, size_t n, int hidx, int fillmode) {
+  int rarr_outkeep = 1;
   if ((op == R_new_realloc || op == R_new_reallocn) && hps[dflt_idx].arena != 0) op = R_realloc;   /* (aborts on exhaustion) */
   int fl = rops[op].fl;
   size_t cnt = 0, sz = 0, al = 0, off = 0;
@@ -418,7 +419,7 @@ static void op_realloc_ex(int op, int s /* slot or -1 for NULL input */, size_t 
     case R_reallocn: q = mi_reallocn(p, cnt, sz); break;
     case R_reallocf: q = mi_reallocf(p, n); break;
     case R_reallocarray: q = mi_reallocarray(p, cnt, sz); break;
-    case R_reallocarr: { void* pp = p; rc = mi_reallocarr(&pp, cnt, sz); q = (rc == 0 ? pp : NULL); break; }
+    case R_reallocarr: { void* pp = p; rc = mi_reallocarr(&pp, cnt, sz); q = (rc == 0 ? pp : NULL); rarr_outkeep = (rc == 0 || pp == p); break; }
     case R_rezalloc: q = mi_rezalloc(p, n); break;
     case R_recalloc: q = mi_recalloc(p, cnt, sz); break;
     case R_realloc_aligned: q = mi_realloc_aligned(p, n, al); break;
@@ -442,7 +443,7 @@ static void op_realloc_ex(int op, int s /* slot or -1 for NULL input */, size_t 
     case R_heap_recalloc_aligned_at: q = mi_heap_recalloc_aligned_at(hp, p, cnt, sz, al, off); break;
   }
   vf_in_call = 0;
-  ret_t r; memset(&r, 0, sizeof(r)); r.null = (q == NULL); r.rc = rc; r.err = errno;
+  ret_t r; memset(&r, 0, sizeof(r)); r.null = (q == NULL); r.rc = rc; r.err = errno; r.outkeep = rarr_outkeep;
   if (q == NULL) {
     unreserve_slot(ns);
     if (s >= 0 && op != R_reallocf && op != R_heap_reallocf) {   /* old block must be untouched */
@@ -703,7 +704,7 @@ static void heap_delete_op(int i) {     /* blocks migrate to the backing heap */
   heap_dying = i;
   mi_heap_delete(hps[i].hp);
   vf_in_call = 0; heap_dying = -1;
-  for (int s = 0; s < MAXSLOTS; s++) if (slots[s].p && slots[s].heap == hps[i].id) slots[s].heap = hps[0].id;
+  for (int s = 0; s < MAXSLOTS; s++) if (slots[s].p && slots[s].heap == hps[i].id) slots[s].heap = (hps[i].arena != 0 ? 0 : hps[0].id);   /* (bound to an arena: orphans) */
   if (dflt_idx == i) dflt_idx = 0;
   hps[i].alive = 0; hps[i].descid = 0;
   log_ret_begin("heap_delete", &r); log_obs(-1, -1, 4); log_ret_end();
@@ -727,6 +728,7 @@ static void heap_set_default_op(int i) {
   log_ret_begin("heap_set_default", &r); log_obs(-1, -1, 0); log_ret_end();
 }
 /* C15: managed arenas (regions handed to mi_manage_os_memory_ex at odd addresses / sizes) and heaps bound to them */
+static int allow_arena_heap_delete = 0;
 static int arena_setup(size_t size, size_t skew, int exclusive) {
   if (nars >= MAXARENAS) return -1;
   size_t total = size + (64u << 20);
@@ -770,9 +772,10 @@ static void op_heap(void) {
   int nalive = 0; for (int i = 0; i < MAXHEAPS; i++) nalive += hps[i].alive;
   if (k < 3 && nalive < MAXHEAPS) { heap_new_op(); return; }
   int i = pick_heap_idx();
-  /* heaps from mi_heap_new_in_arena allow reclaim and must not be destroyed; deleting them would hand their pages (inside the
-     arena) to the unbound backing heap, which ends the privacy of an exclusive arena: they are kept until the end */
-  if (k < 7 && i != 0 && hps[i].arena != 0) return;
+  /* heaps from mi_heap_new_in_arena allow reclaim and must not be destroyed.  Deleting them abandons their pages (they cannot be handed to
+     the unbound backing heap) -- inside segments the thread still owns when other heaps have pages there, and a later free by this thread
+     then crashes (known finding C10, see known_findings.json; scenario `arenadel`): the random profiles keep them until the end */
+  if (k < 7 && i != 0 && hps[i].arena != 0 && !allow_arena_heap_delete) return;
   if (k < 5 && i != 0) heap_delete_op(i);
   else if (k < 7 && i != 0) heap_destroy_op(i);
   else if (k < 8) heap_set_default_op(i);
@@ -1219,7 +1222,7 @@ static void alloc_many(int count, size_t lo, size_t hi, int ops_mix) {
     maybe_clock();
     size_t n = lo + (size_t)vf_randn(hi - lo + 1);
     int op = A_malloc;
-    if (ops_mix) { static const int mix[] = {A_malloc, A_zalloc, A_calloc, A_malloc_aligned, A_malloc, A_new_nothrow, A_posix_memalign}; op = mix[vf_randn(7)]; }
+    if (ops_mix) { static const int mix[] = {A_malloc, A_zalloc, A_calloc, A_malloc_aligned, A_malloc, A_new_nothrow, A_posix_memalign, A_new_aligned_nothrow, A_memalign}; op = mix[vf_randn(9)]; }
     op_alloc_ex(op, n, (size_t)16 << vf_randn(4), 0, 0, 0);
   }
 }
@@ -1246,6 +1249,7 @@ static void* worker_main(void* arg) {
       }
     }
   }
+  else if (w->mode == 6) { op_alloc_ex(A_malloc_aligned, ((size_t)3 << 20) + 4096, (size_t)32 << 20, 0, 0, 0); alloc_many(w->count, w->lo, w->hi, 0); }   /* mode 1 + a segment mapped directly (over-aligned block) */
   else if (w->mode != 2) alloc_many(w->count, w->lo, w->hi, w->mode == 0);
   int k = 0;
   if (w->mode == 0) { for (int s = 0; s < MAXSLOTS; s++) if (slots[s].p && slots[s].heap == w->heapid && (k++ % 2) == 0) op_free_slot(s, FR_free); }
@@ -1284,7 +1288,7 @@ static void workload_alloc_base(const char* wl);
 static void workload_alloc(const char* wl) { workload_alloc_base(wl); if (strcmp(wl, "giant") != 0 && strcmp(wl, "reuse") != 0) grow_some(wl_scale > 1 ? 3 : 8); }
 static void workload_alloc_base(const char* wl) {
   if (!strcmp(wl, "small")) { alloc_many(260, 1, 1024, 1); alloc_many(60, 1025, 8192, 1); }
-  else if (!strcmp(wl, "large")) { alloc_many(30, 8193, 131072, 1); alloc_many(24, 131073, 4u << 20, 0); alloc_many(3, 5u << 20, 15u << 20, 0); }
+  else if (!strcmp(wl, "large")) { alloc_many(30, 8193, 131072, 1); alloc_many(24, 131073, 4u << 20, 1); alloc_many(3, 5u << 20, 15u << 20, 1); }
   else if (!strcmp(wl, "huge")) { alloc_many(2, 17u << 20, 40u << 20, 0); alloc_many(1, 70u << 20, 100u << 20, 0);
                                   op_alloc_ex(A_malloc_aligned, 3u << 20, 32u << 20, 0, 0, 0); op_alloc_ex(A_zalloc_aligned, 100000, 64u << 20, 0, 0, 0); alloc_many(20, 1, 100000, 1); }
   else if (!strcmp(wl, "mt")) { run_worker_ex(0, 0, 0, 5, 0); alloc_many(80, 1, 20000, 1); run_worker(120, 1, 4096); run_worker(40, 4097, 300000); run_worker(2, 17u << 20, 20u << 20); }
@@ -1304,6 +1308,12 @@ static void workload_alloc_base(const char* wl) {
   else if (!strcmp(wl, "relay")) {   /* a producer thread exits with everything live (several segments, full pages); a consumer thread frees all of it and exits too:
                                         nobody who touched that memory is alive any more, it must still be given back */
                                   int ph = run_worker_ex(260, 200000, 262000, 1, 0); run_worker_ex(0, 0, 0, 2, ph); alloc_many(10, 1, 100000, 1); }
+  else if (!strcmp(wl, "relayos")) {  /* as relay, but the producers also leave segments behind that were mapped directly (a block aligned to 32 MiB): abandoned
+                                        segments on the list of the sub-process AND in the arena bitmaps; the consumer and the main thread must find all of them */
+                                  int p1 = run_worker_ex(3, 100, 5000, 6, 0); run_worker_ex(0, 0, 0, 2, p1);
+                                  int p2 = run_worker_ex(120, 20000, 262000, 6, 0); int p3 = run_worker_ex(60, 100, 70000, 1, 0);
+                                  for (int s = 0; s < MAXSLOTS; s++) if (slots[s].p && (slots[s].heap == p2 || slots[s].heap == p3)) op_free_slot(s, FR_free);
+                                  alloc_many(10, 1, 100000, 1); }
   else if (!strcmp(wl, "subproc")) {  /* threads of a second sub-process leave blocks behind; threads of the main sub-process need fresh segments (they visit the
                                         abandoned segments but may not touch those of the other sub-process); after the blocks were freed a thread of the second
                                         sub-process collects: its memory must be released */
